@@ -148,7 +148,33 @@ impl AcceptEncoding {
 
             _ if identity_acceptable => Some(Encoding::identity()),
 
-            _ => None,
+            // identity is excluded: a positive "*" still permits every supported coding that is
+            // not listed explicitly (anything listed with q > 0 would have matched above)
+            _ => {
+                let star = self
+                    .0
+                    .iter()
+                    .any(|q| matches!(q.item, Preference::Any) && q.quality > Quality::ZERO);
+
+                let listed = |enc: &Encoding| {
+                    self.0
+                        .iter()
+                        .any(|q| matches!(&q.item, Preference::Specific(e) if e == enc))
+                };
+
+                if star {
+                    [
+                        Encoding::brotli(),
+                        Encoding::zstd(),
+                        Encoding::gzip(),
+                        Encoding::deflate(),
+                    ]
+                    .into_iter()
+                    .find(|enc| supported_set.contains(enc) && !listed(enc))
+                } else {
+                    None
+                }
+            }
         }
     }
 
@@ -268,20 +294,18 @@ fn is_identity_acceptable(items: &'_ [QualityItem<Preference<Encoding>>]) -> boo
         return true;
     }
 
-    // Loop algorithm depends on items being sorted in descending order of quality. As such, it
-    // is sufficient to return (q > 0) when reaching either an "identity" or "*" item.
-    for q in items {
-        match (q.quality, &q.item) {
-            // occurrence of "identity;q=n"; return true if quality is non-zero
-            (q, Preference::Specific(Encoding::Known(ContentEncoding::Identity))) => {
-                return q > Quality::ZERO
-            }
+    // a specific "identity;q=n" entry takes precedence over "*;q=n", whatever their order
+    if let Some(q) = items.iter().find(|q| {
+        matches!(
+            q.item,
+            Preference::Specific(Encoding::Known(ContentEncoding::Identity))
+        )
+    }) {
+        return q.quality > Quality::ZERO;
+    }
 
-            // occurrence of "*;q=n"; return true if quality is non-zero
-            (q, Preference::Any) => return q > Quality::ZERO,
-
-            _ => {}
-        }
+    if let Some(q) = items.iter().find(|q| matches!(q.item, Preference::Any)) {
+        return q.quality > Quality::ZERO;
     }
 
     // implicit acceptable identity
